@@ -151,7 +151,7 @@ TABLE = {
             "clear_run_id -> _stop_interpreter in dominance order (Restart then, after a yield, set_run_id -> enable -> "
             "emit_on_start); the cancel chain down to _finalize_command is checked link by link; every Tag subclass "
             "overriding on_stop must reach super().on_stop() on all paths (that is what ends simulations).",
-            "Decides the clean-up structure; completeness of the run log at every stop point and UOD callback behaviour are not decided. Also decided (R10d): in _execute_uod_command every path from the acquisition of the instance to a raising exit finalizes it, and _finalize_command marks the request done on every path - Stop can only cancel what is still an executing request. (R10e): cancel_all_commands is called in the generator segment that ends the run, not only before a wait. (R10f) a command's cancellation is recorded whatever its node says; (R10g) Stop finalizes instances without a request; (R10h) the concluded-invocation gate finalizes the command its request started. (R10i) a request the cancel pass retires without a state has concluded or is executed by another request."),
+            "Decides the clean-up structure; completeness of the run log at every stop point and UOD callback behaviour are not decided. Also decided (R10d): in _execute_uod_command every path from the acquisition of the instance to a raising exit finalizes it, and _finalize_command marks the request done on every path - Stop can only cancel what is still an executing request. (R10e): cancel_all_commands is called in the generator segment that ends the run, not only before a wait. (R10f) a command's cancellation is recorded whatever its node says; (R10g) Stop finalizes instances without a request; (R10h) the concluded-invocation gate finalizes the command its request started. (R10i) a request the cancel pass retires without a state has concluded or is executed by another request. (R10j) the run-end sweep concludes uod command invocations that were created but never requested."),
     "C11": ("lifecycle typestate rules on the CFG of CommandManager._execute_uod_command",
             "Both cancel loops must dominate instance creation and every execute(); creation only without an existing "
             "instance; initialize only when not initialised and before execute; finalize only through guarded sites; from "
@@ -188,7 +188,7 @@ TABLE = {
             "cancellable=forcible=False last, and append the item; the exclusion table equals the property's list; every "
             "visitor pairs node.completed = True with tracking.mark_completed. All are facts over every record history.",
             "Decides these structural clauses; producibility for arbitrary runtime state orders (the raise sites of the "
-            "generator) and monotonicity of the clock itself are not decided. R15f additionally decides one producibility clause: a command request never receives two different conclusive record states (which makes the generator raise for the rest of the run) - violated on the pinned tree, repaired (fixed entry). (R15f) every cancellation finalizes at once, so no cancelled command reaches a second conclusive mark; (R15g) Tracking.mark_* called with a request/command attribute the state to that request's own invocation. (R15h) last_instance_id is the most recently created invocation. (R15j) Cancelled is recorded for a request without a command instance only if its invocation has not concluded. (R15k) choke point: _add_state appends only after a scan that returns on a conclusive state of the same invocation - decides 'no state behind a conclusive one' for every caller; (R15l) Watch and Alarm visitors agree on cancellation; (R15m) handlers are removed before a body is reset; (R15a) the state clock is monotone."),
+            "generator) and monotonicity of the clock itself are not decided. R15f additionally decides one producibility clause: a command request never receives two different conclusive record states (which makes the generator raise for the rest of the run) - violated on the pinned tree, repaired (fixed entry). (R15f) every cancellation finalizes at once, so no cancelled command reaches a second conclusive mark; (R15g) Tracking.mark_* called with a request/command attribute the state to that request's own invocation. (R15h) last_instance_id is the most recently created invocation. (R15j) Cancelled is recorded for a request without a command instance only if its invocation has not concluded. (R15k) choke point: _add_state appends only after a scan that returns on a conclusive state of the same invocation - decides 'no state behind a conclusive one' for every caller; (R15l) Watch and Alarm visitors agree on cancellation; (R15m) handlers are removed before a body is reset; (R15a) the state clock is monotone. (R15n) a replacing interpreter inherits the tracking state at every construction site."),
     "C34": ("must-precede (sort before use across two cooperating functions), sibling agreement of column iteration, "
             "one-cell-per-entry path count, loop-shape and guard-dominance rules on the sample-and-hold cursor",
             "The row writer's cursor algorithm needs sorted values (established as a side effect of the header writer: "
@@ -231,7 +231,7 @@ TABLE = {
             "Every node class the parser can emit has a visit_<Class> on PInterpreter's MRO, every interpreter command and "
             "engine command name has a handler/class; child_index is incremented once, after the child's generator; completed "
             "nodes are never dispatched; started is set only after the threshold wait; trailing blank/comment lines are never passed.",
-            "Exactly-once and ordering for arbitrary nestings and timings are runtime properties and not decided. The blank/comment rule follows `yield from self.<helper>(node)` delegation and has an instance floor (it once passed vacuously on a refactoring). Also decided (R02c): every normal end of a macro invocation increments the finished counter that guards the body reset, and the reset is recursive. (R02c) the finished counter is incremented in a finally around the body visit (abandoned invocations count); (R02d) every interpreter command completes on every normal path. (R02e) only the Call macro node that started an invocation continues it (owner attribute, waiting loop, carried state)."),
+            "Exactly-once and ordering for arbitrary nestings and timings are runtime properties and not decided. The blank/comment rule follows `yield from self.<helper>(node)` delegation and has an instance floor (it once passed vacuously on a refactoring). Also decided (R02c): every normal end of a macro invocation increments the finished counter that guards the body reset, and the reset is recursive. (R02c) the finished counter is incremented in a finally around the body visit (abandoned invocations count); (R02d) every interpreter command completes on every normal path. (R02e) only the Call macro node that started an invocation continues it (owner attribute, waiting loop, carried state). (R02f) the default of the last-non-whitespace line lies below the first line number."),
     "C03": ("constant-table agreement (duration units/multipliers) and data-flow orientation of the threshold comparison",
             "The unit list of the duration regexes, the units and folded multipliers of get_duration_end and the groups used by "
             "Wait/Pause/Hold must agree; the threshold comparison must be '<'(scope clock, node.threshold) with the clock "
@@ -243,12 +243,12 @@ TABLE = {
             "or a true condition and never for a cancelled node; a cancelled Watch leaves the wait loop before trying to "
             "activate; Watch completion and the Alarm re-arm sequence post-dominate the body; every block_ended = True is "
             "followed by _abort_block_interrupts on all paths.",
-            "Tick-exact interleavings of condition, cancel, force and End block are not decided. Also decided (R04d): every self.visit(child) in _visit_children is dominated by the un-weakened false outcome of _is_in_ended_block(child). Also decided (R04e): on the request-state model of Watch/Alarm (opstatic/condnode.py: boolean request/activation attributes, user cancel/force possible at every yield and accepted exactly when the class' own cancellable/forcible holds, fresh generators from every reachable state) the body is never invoked with the cancel flag set. (R04f) a completion of an earlier invocation leaves the re-armed node alone; (R04g) an Alarm that re-arms unregisters the interrupts of the body it resets; (R04h) an interrupt unregistered earlier in the tick is not resumed."),
+            "Tick-exact interleavings of condition, cancel, force and End block are not decided. Also decided (R04d): every self.visit(child) in _visit_children is dominated by the un-weakened false outcome of _is_in_ended_block(child). Also decided (R04e): on the request-state model of Watch/Alarm (opstatic/condnode.py: boolean request/activation attributes, user cancel/force possible at every yield and accepted exactly when the class' own cancellable/forcible holds, fresh generators from every reachable state) the body is never invoked with the cancel flag set. (R04f) a completion of an earlier invocation leaves the re-armed node alone; (R04g) an Alarm that re-arms unregisters the interrupts of the body it resets; (R04h) an interrupt unregistered earlier in the tick is not resumed. (R04i) handlers are ended with the blocks they were registered in (macro calls inside a Block); (R04k) a re-arm concludes the waiting children; (R04j) interrupt handlers park on trailing whitespace - open known finding (the repair contradicts C02's last sentence)."),
     "C05": ("sibling agreement of the two End-block visitors + lock acquire/release pairing on the CFG of visit_BlockNode",
             "End block and End blocks must perform the same per-block effect set and write the Block tag; the lock-acquired "
             "branch must announce the block before the body; every normal exit releases the lock; completion after the body is "
             "reachable only once block_ended; the lock is taken only when all locked blocks are ancestors.",
-            "The single-chain invariant over all reachable interpreter states and which block `End block` picks are data-dependent and not decided. R05c is role-based and also requires the set of locked blocks to be read from the lock flags at decision time; a stored snapshot must be refreshed by the statement that takes the lock. (R05d) End block chooses among locked blocks that have not been ended; (R05e) the Block tag is cleared when Stop/Restart replace the interpreter. (R05f) locks of blocks below an aborted interrupt are released; (R05g) the un-weakened ended-block test guards every child visit, in handlers too."),
+            "The single-chain invariant over all reachable interpreter states and which block `End block` picks are data-dependent and not decided. R05c is role-based and also requires the set of locked blocks to be read from the lock flags at decision time; a stored snapshot must be refreshed by the statement that takes the lock. (R05d) End block chooses among locked blocks that have not been ended; (R05e) the Block tag is cleared when Stop/Restart replace the interpreter. (R05f) locks of blocks below an aborted interrupt are released; (R05g) the un-weakened ended-block test guards every child visit, in handlers too. (R05h) End blocks ends only not-yet-ended blocks and names the next enclosing one; (R05i) a Block waiting for the lock does not start inside an ended block; (R05j) an Alarm re-arms only when no handler of its body is executing."),
     "C14": ("lookup-domain agreement rule for interrupts + effect check of inject_node + guard check of the interpreter tick",
             "Every node handed to _register_interrupt must be findable where the live-edit merge looks interrupts up (the "
             "program tree) or the merge must consult the injected-node registry; inject_node may not write method progress; "
@@ -260,7 +260,7 @@ TABLE = {
             "macro_calling_macro's result, lie on no cycle, and be followed by the completion counter; ProgramNode.macros is "
             "written only by _register_macro (unconditional overwrite) and looked up by name at call time; the live-edit "
             "validation raises for a started macro that is missing, retyped or modified.",
-            "Completeness of the recursion detector over arbitrary macro call graphs is out of static reach (it follows only the first Call macro child). (R41d) the recursion search follows every Call macro line and returns a path only if it reaches the target; (R41e) its result is computed at call time. (R41d) the search covers call lines nested in blocks/watches/alarms (not nested definitions); (R41f) look-up repeated after waiting; (R41g) all started definitions are protected; (R41h) executing handlers of the previous call are awaited; (R41i) re-execution re-defines; (R41j) the ended-block walk stops at the enclosing macro."),
+            "Completeness of the recursion detector over arbitrary macro call graphs is out of static reach (it follows only the first Call macro child). (R41d) the recursion search follows every Call macro line and returns a path only if it reaches the target; (R41e) its result is computed at call time. (R41d) the search covers call lines nested in blocks/watches/alarms (not nested definitions); (R41f) look-up repeated after waiting; (R41g) all started definitions are protected; (R41h) executing handlers of the previous call are awaited; (R41i) re-execution re-defines; (R41j) the ended-block walk stops at the enclosing macro. (R41k) the call counters only grow and active_call_id is only ever a call node's id."),
     "C17": ("path enumeration of the parser's nesting loop (exactly-once append), id-assignment audit, totality audit against a justified table",
             "Every acyclic path through the body of the indentation loop of parse_method must call append_child(node) exactly "
             "once and the first loop must produce exactly one node per line; every returned node carries an id; partial "
